@@ -21,6 +21,12 @@ def run(cfg, calls, *, n_jobs=1, verbose=False, folder=None, ctor_seed_shift=0, 
     try:
         with quiet(), G.time_limit(time_limit):
             for n in calls:
+                if isinstance(n, dict):      # an operation between two calls
+                    if "set_samplers" in n:
+                        # samplers introduced in mid-run are not re-seeded by the calibrator (it seeds at batch 0 only): their constructor
+                        # seeds are part of the script, so they are the same in every variant
+                        cal.set_samplers([G.build_sampler(d) for d in n["set_samplers"]])
+                    continue
                 ret = cal.calibrate(n)
     except G.Timeout:
         res["error"] = "timeout"
@@ -42,6 +48,26 @@ if __name__ == "__main__":
     job = json.loads(open(sys.argv[1]).read())
     if job.get("prelude"):  # something unrelated happens first in this process: the run of interest must not notice
         run(job["prelude"], [2])
+    if job.get("restore_from"):
+        # the realistic restart: another interpreter restores the checkpoint and goes on
+        from black_it.calibrator import Calibrator
+
+        from vlib import calgen as CG
+        from vlib import state as S
+        from vlib.core import quiet
+
+        r = {"error": None}
+        try:
+            with quiet():
+                cal = Calibrator.restore_from_checkpoint(job["restore_from"], CG.model_for(job["cfg"]))
+                for n in job["calls"]:
+                    cal.calibrate(n)
+            r.update(S.history_arrays(cal))
+        except Exception as e:  # noqa: BLE001
+            r["error"] = f"{type(e).__name__}: {str(e)[:200]}"
+        err = r.pop("error")
+        np.savez(sys.argv[2], error=np.array(err if err else ""), **r)
+        sys.exit(0)
     r = run(job["cfg"], job["calls"], n_jobs=job.get("n_jobs", 1), verbose=job.get("verbose", False))
     r.pop("cal")
     err = r.pop("error")
